@@ -3,7 +3,7 @@ from C01 import TUS as T1
 import C01, C02, C05
 TUS = ['c14.cc']
 def ob(id, entry, cases, expect, bounds, **kw):
-    d = dict(id=id, harness='c14.cc', entry=entry, mode='fp', cases=cases, expect=expect, bounds=bounds, tus=TUS, native=False, cflags=['-I/repo/include/vtu11', '-DWB_VERIF_NO_ZLIB'],
+    d = dict(id=id, harness='c14.cc', entry=entry, mode='fp', cases=cases, expect=expect, bounds=bounds, tus=TUS, native=False, cflags=['-I' + __import__('build').REPO + '/include/vtu11', '-DWB_VERIF_NO_ZLIB'],
              stubs=['std::thread mapped (by a macro on the identifier `thread` while compiling the unchanged gwb-grid/main.cc) to a class that records the slice instead of starting a thread'],
              assumes=['node range below 2^24 (16.7 million nodes)'], outside=['the VTU writer', 'execution under a real scheduler: no schedule is ever run; race freedom follows from disjoint slices (here) + per-node slots (C14.slots) + write-set purity of the query path (C14.pure)'])
     d.update(kw); return d
